@@ -1,22 +1,24 @@
 #!/bin/bash
 # tools/run_harmless.sh [ids...] — apply each behaviour-preserving rewrite of seeded-harmless/ to /repo and run EVERY check:
 # all must stay silent (exit 0, no VIOLATION line).  Serial: /repo is shared.
-cd /verif
-ids=${@:-$(ls seeded-harmless)}
+# (VERIF_RUN_ROOT / J1939_REPO: as in run_seeded.sh, for side-by-side runs on scratch copies; results recorded under /verif)
+root=${VERIF_RUN_ROOT:-/verif}; repo=${J1939_REPO:-/repo}
+cd $root
+ids=${@:-$(ls /verif/seeded-harmless)}
 for id in $ids; do
-  d=seeded-harmless/$id
+  d=/verif/seeded-harmless/$id
   [ -f $d/patch.diff ] || continue
-  if [ -n "$(git -C /repo status --porcelain)" ]; then echo "/repo not clean"; exit 2; fi
-  git -C /repo apply /verif/$d/patch.diff || { echo "$id apply-failed"; continue; }
+  if [ -n "$(git -C $repo status --porcelain)" ]; then echo "$repo not clean"; exit 2; fi
+  git -C $repo apply $d/patch.diff || { echo "$id apply-failed"; continue; }
   alarms=""
   fb=""
   for c in C01 C02 C03 C04 C05 C06 C07 C08 C09 C10 C11 C12 C13 C14 C15 C16 C17 C18 C19; do
     out=$(./check $c --tier quick 2>&1); rc=$?
     if [ $rc -ne 0 ] || echo "$out" | grep -q '^VIOLATION'; then alarms="$alarms $c"; echo "$out" | grep '^VIOLATION' | head -1; fi
   done
-  fb=$(/venv/bin/python -c "import json; r=json.load(open('/verif/coq/theories/gen/translate_report.json')); print(','.join(x['name'] for x in r if x['status']!='translated'))")
-  git -C /repo checkout -- .
+  fb=$(/venv/bin/python -c "import json; r=json.load(open('$root/coq/theories/gen/translate_report.json')); print(','.join(x['name'] for x in r if x['status']!='translated'))")
+  git -C $repo checkout -- .
   echo "$id alarms=[${alarms# }] translator-fallback=[$fb] | $(cat $d/title.txt)"
   printf '{"rewrite":"%s","alarms":"%s","translator_fallback_items":"%s"}\n' "$id" "${alarms# }" "$fb" > $d/result.json
 done
-./check setup >/dev/null 2>&1
+[ "$repo" = /repo ] && ./check setup >/dev/null 2>&1
